@@ -146,8 +146,13 @@ def run_definition(ctx, P):
     n = P["n"]
     cs = mk_candles(ctx, n)
     if P.get("posvol"):
-        for c in cs:
-            ctx.assume(c.volume > 0)
+        # only what the definition needs: a non-zero denominator (single candles may well have zero volume)
+        pv = (P["spec"][2].get("period") if P["spec"][1] == "VWMA" else None)
+        if pv:
+            for i in range(pv - 1, n):
+                ctx.assume(sum(c.volume for c in cs[i - pv + 1: i + 1]) > 0)
+        else:
+            ctx.assume(cs[0].volume > 0)
     x = None
     kw2 = dict(kw)
     s = P.get("late")
